@@ -20,6 +20,7 @@ C_FUNCS = [
     ("tables.c", "tsk_table_collection_check_tree_integrity"),
     ("tables.c", "tsk_table_collection_check_integrity"),
 ]
+LEMMAS = ["lemmas.induction:offsets_transitive"]
 UNVERIFIED = []
 TRUSTED = []
 ASSUMPTIONS = [
